@@ -288,8 +288,30 @@ pub fn steps_json(steps: &[Step]) -> Value {
 pub const ALLOWANCE_MS: u64 = 3000;
 pub const UNBOUNDED_DEADLINE_MS: u64 = 60_000;
 
-/// Run one session against a fresh engine process.
+/// Run one session against a fresh engine process.  A timeout verdict reached while the engine
+/// process was being kept from running (see `Engine::starved`) says nothing about the engine:
+/// the session is run again (twice at most); if the machine stays that loaded the case is
+/// reported as inconclusive (exit 2), never as a violation.
 pub fn run_session(ctx: &Ctx, steps: &[Step], rep: &mut Report) -> Result<(), Violation> {
+    let mut starved = 0;
+    loop {
+        let mut scratch = Report::new();
+        let r = run_session_once(ctx, steps, if starved == 0 { &mut *rep } else { &mut scratch });
+        match r {
+            Err(v) if v.sig.ends_with("/starved") => {
+                starved += 1;
+                rep.class("timeout-while-engine-starved-of-cpu(retried; not a violation)");
+                if starved >= 3 {
+                    rep.infra_errors.push(format!("inconclusive: the engine process was starved of CPU in three attempts ({})", v.detail));
+                    return Ok(());
+                }
+            }
+            other => return other,
+        }
+    }
+}
+
+fn run_session_once(ctx: &Ctx, steps: &[Step], rep: &mut Report) -> Result<(), Violation> {
     let mut eng = match Engine::spawn(&ctx.engine, &[]) {
         Ok(e) => e,
         Err(e) => {
@@ -314,6 +336,7 @@ pub fn run_session(ctx: &Ctx, steps: &[Step], rep: &mut Report) -> Result<(), Vi
         }
         eng.send(&st.position);
         let t0 = eng.now();
+        let cpu0 = eng.cpu_ms();
         eng.send(&st.go);
         gos += 1;
         rep.eval(1);
@@ -341,11 +364,14 @@ pub fn run_session(ctx: &Ctx, steps: &[Step], rep: &mut Report) -> Result<(), Vi
                 return Err(fail("one-bestmove", format!("one-bestmove/search-thread-panic/{site}/{limit_class}"), format!("go #{} '{}' at {}: the search thread panicked and no bestmove was sent ({what})", i + 1, st.go, st.fen_after), &eng));
             }
             None => {
-                return Err(fail("in-time", format!("in-time/no-bestmove/{limit_class}"), format!("go #{} '{}' at {}: no bestmove within {} ms", i + 1, st.go, st.fen_after, deadline.as_millis()), &eng));
+                let sv = if eng.starved(cpu0, deadline) { "/starved" } else { "" };
+                return Err(fail("in-time", format!("in-time/no-bestmove/{limit_class}{sv}"), format!("go #{} '{}' at {}: no bestmove within {} ms", i + 1, st.go, st.fen_after, deadline.as_millis()), &eng));
             }
         }
+        let cpu1 = eng.cpu_ms();
         if !eng.ready(Duration::from_secs(3)) {
-            return Err(fail("accepts-next", format!("accepts-next/no-readyok/{limit_class}"), format!("after go #{} '{}' the engine did not answer isready within 3 s", i + 1, st.go), &eng));
+            let sv = if eng.starved(cpu1, Duration::from_secs(3)) { "/starved" } else { "" };
+            return Err(fail("accepts-next", format!("accepts-next/no-readyok/{limit_class}{sv}"), format!("after go #{} '{}' the engine did not answer isready within 3 s", i + 1, st.go), &eng));
         }
         for c in &st.classes {
             rep.class(&format!("go:{c}"));
@@ -388,6 +414,7 @@ pub fn flow_session(ctx: &Ctx, mut game: Game, gos: usize, replies: &[u16], rep:
         let st = Step { pre: vec![], position: position_command(&game.start, &game.moves_uci()), go: go.into(), fen_after: game.cur.to_fen(), time_bound_ms: if go.contains("movetime") { Some(20) } else { None }, classes: vec!["flow"], nontrivial: k > 0 };
         steps.push(st.clone());
         eng.send(&st.position);
+        let cpu0 = eng.cpu_ms();
         eng.send(&st.go);
         rep.eval(1);
         let deadline = Duration::from_millis(st.time_bound_ms.map_or(UNBOUNDED_DEADLINE_MS, |t| t + ALLOWANCE_MS));
@@ -404,6 +431,10 @@ pub fn flow_session(ctx: &Ctx, mut game: Game, gos: usize, replies: &[u16], rep:
                 let mut r = steps_json(&steps);
                 r["transcript"] = json!(eng.transcript(30));
                 return Err(Violation::new("one-bestmove", &format!("one-bestmove/search-thread-panic/{site}/flow"), format!("go #{} of a game flow ('{}' at {}): the search thread panicked and no bestmove was sent ({what})", k + 1, st.go, st.fen_after), r));
+            }
+            None if eng.starved(cpu0, deadline) => {
+                rep.class("timeout-while-engine-starved-of-cpu(flow abandoned; not a violation)");
+                return Ok(());
             }
             None => return Err(Violation::new("in-time", "in-time/no-bestmove/flow", format!("go #{} of a game flow ('{}' at {}): no bestmove within {} ms", k + 1, st.go, st.fen_after, deadline.as_millis()), r)),
         };
